@@ -560,6 +560,23 @@ pub fn units(prop: &str, tier: Tier) -> Option<Vec<Unit>> {
                 .probes(NOPROBE)
                 .pairs(PairMode::Exact)
                 .unit(),
+                e1("kmemorec-pairs", format!("every Kmemorec grammar (or_not / then / or / recover_with over one- and two-token leaves) with <= {} nodes that contains a recover_with x each single node memoized, vs the plain grammar", pick(6, 7)), {
+                    let mut out = vec![];
+                    for g in en::k_memo_rec().upto(pick(6, 7)) {
+                        if !g.any_node(&|x| matches!(x, Recover(..))) {
+                            continue;
+                        }
+                        for i in 0..g.size() as u32 {
+                            out.push(g.clone());
+                            out.push(en::decorate(&g, 1 << i, &wrap_memo));
+                        }
+                    }
+                    out
+                })
+                .alpha(&['a', 'b'], 3)
+                .probes(NOPROBE)
+                .pairs(PairMode::Exact)
+                .unit(),
                 e1("kshare-memoized-definition-pairs", format!("one parser value used several times (let x = def; body with >= 2 uses of x; bodies of <= {} nodes over x / just / map_err / or_not / then / or / recover_with, 5 definitions): def vs def.memoized() - the uses share one memo table, so entries are really looked up (same position after backtracking, under map_err, inside a recovery strategy)", pick(8, 9)), en::k_share_pairs(pick(8, 9)))
                     .alpha(&['a', 'b'], pick(4, 5))
                     .probes(NOPROBE)
